@@ -80,6 +80,20 @@ def gen_sibling(rng):
     t = p.op(rng.choice(["scale", "square"]), [x], **({"c": 2} if False else {})) if False else None
     t = p.op("scale", [x], c=rng.choice([2, 3])) if rng.random() < 0.5 else p.op("square", [x])
     outs = p.op("unbind", [t])
+    if rng.random() < 0.5:
+        # SEVERAL features that are sibling outputs of one node (encoder(x).chunk / unbind / an RNN's
+        # (output, h_n)), one or more heads per feature and no path around: every sibling's gradient edge
+        # is excluded, the defaults do not overlap and the call must be accepted
+        feats = rng.sample(outs, rng.randint(2, len(outs)))
+        losses = []
+        for ti in range(rng.randint(len(feats), len(feats) + 1)):
+            f = feats[ti % len(feats)]
+            w = p.leaf((2,), [rng.randint(-2, 2) for _ in range(2)], True)
+            a = p.op("mul", [f, w])
+            if rng.random() < 0.4:
+                a = p.op("square", [a])
+            losses.append(p.op("sum", [a]))
+        return p, feats, losses
     fi = rng.randrange(len(outs))
     feat = outs[fi]
     sib = rng.choice([o for o in outs if o != feat])
